@@ -10,6 +10,7 @@ Check C02_acknowledged_kept : forall h W, sel h W -> forall b, In (true, b) h ->
 Check C02_nothing_invented : forall h W, sel h W -> forall b, In b W -> exists a, In (a, b) h.
 Check C02_merge_accepted : forall v gc ins outs, ts_unique (all_entries v) -> incl ins (v_files v) -> (forall e, In e (concat outs) <-> In e (concat ins)) -> accepted v (OpCompact gc ins outs).
 Check C02_acceptedb_sound : forall v o, acceptedb v o = true -> accepted v o.
+Check C02_timestamps_unique : forall c v, reach c -> c_v c = Some v -> ts_unique (all_entries v).
 Check C02_crash_models_covered : forall s, cut s (image_a s) /\ cut s (image_b s).
 Check C02_open_store_contents : forall c v, reach c -> c_v c = Some v -> Run (c_fs c) v /\ exists W, sel (c_hist c) W /\ explains W (all_entries v).
 Check C02_sequence_numbers_fresh : forall c v, reach c -> c_v c = Some v -> forall e, In e (all_entries v) -> ets e < v_seq v + 1.
